@@ -310,6 +310,15 @@ theorem pathset_unknown_key_counterexample :
       SetImpl.has PathSet.pathRules (SetImpl.add PathSet.pathRules SetImpl.empty p) p = false := by
   constructor <;> rfl
 
+
+/-- Index keys that carry marks make `Equivalent` panic: `Key.Equals(Key)` inherits
+the marks and `False()` asserts an unmarked receiver.  So `Add` of a second such
+path (same bucket: every index step hashes alike) panics. -/
+theorem pathset_marked_key_counterexample :
+    let k : Int → Value := fun i => ⟨.number, .marked ["m"] (.n (Num.ofInt i 64))⟩
+    (PathSet.equiv [.index (k 1)] [.index (k 2)]).isPanic = true := by
+  rfl
+
 /-- **PathSet refines sets of paths, for all histories.**  Whatever sequence of
 `Add`, `AddAllSteps`, `Remove`, `Has`, `List`, `Empty`, `Equal`, `Union`,
 `Intersection`, `Subtract`, `SymmetricDifference` calls is applied to PathSet
